@@ -42,7 +42,7 @@ CONSTANTS MemberCount, VotingPeriod, ClaimPeriod, DutyPeriod, Lockup, ActivateDu
           MaxTx,            \* transactions per block (1 or 2)
           MaxRollbacks,     \* RollbackTo steps per behaviour
           RollDepth,        \* how far back a rollback may go
-          DupWithdrawRule   \* TRUE: CheckDuplicateTx refuses two withdrawals of one proposal
+          DupRule           \* TRUE: CheckDuplicateTx refuses a second withdrawal / a second tracking of one proposal
 
 VARIABLES s,       \* committee state (record, see Genesis)
           hist,    \* hist[i] = <<height, state after that height>>, most recent RollDepth+1 entries
@@ -64,8 +64,8 @@ Genesis ==
   [h |-> 0,
    cand |-> [c \in CRs |-> [st |-> "None", votes |-> 0, regH |-> 0, cancelH |-> 0, nick |-> 0]],
    nv   |-> [c \in CRs |-> 0],                    \* nickname versions handed out
-   dep  |-> [c \in CRs |-> [known |-> FALSE, locked |-> 0]],
-   mem  |-> [c \in CRs |-> [st |-> "None", imp |-> 0, key |-> FALSE]],
+   dep  |-> [c \in CRs |-> [known |-> FALSE, locked |-> 0, total |-> 0, pen |-> 0]],  \* units of MinDepositAmount
+   mem  |-> [c \in CRs |-> [st |-> "None", imp |-> 0, key |-> FALSE, pbc |-> 0]],  \* pbc = PenaltyBlockCount
    next |-> [c \in CRs |-> [in |-> FALSE, key |-> FALSE]],
    hmem |-> [i \in Sessions |-> [c \in CRs |-> "None"]],
    hcand |-> [i \in Sessions |-> [c \in CRs |-> "None"]],
@@ -99,11 +99,6 @@ OnDuty(st) == {"Elected", "Inactive", "Illegal"}
 (* SpecialContextCheck of its kind).  inBlock = budgets of the proposals   *)
 (* that precede it in the block.                                           *)
 
-ReturnableCand(s0, h, c) ==
-    \/ s0.cand[c].st = "Canceled" /\ h - s0.cand[c].cancelH > Lockup
-    \/ \E i \in Sessions : s0.hcand[i][c] \notin {"None", "Returned"}
-ReturnableMem(s0, c) == \E i \in Sessions : s0.hmem[i][c] \notin {"None", "Returned"}
-
 Accepts(s0, h, tx, inBlock) ==
     CASE tx.k = "RegisterCR"   -> InVoting(s0, h) /\ s0.cand[tx.c].st = "None"
       [] tx.k = "UpdateCR"     -> InVoting(s0, h) /\ s0.cand[tx.c].st \in {"Pending", "Active"}
@@ -133,23 +128,27 @@ Accepts(s0, h, tx, inBlock) ==
       [] tx.k = "Claim"        -> IF tx.x = "next"
                                   THEN s0.next[tx.c].in /\ ~s0.next[tx.c].key
                                   ELSE s0.mem[tx.c].st \in {"Elected", "Inactive"} /\ ~s0.mem[tx.c].key
-      [] tx.k = "ReturnDeposit" -> s0.dep[tx.c].known /\ (ReturnableCand(s0, h, tx.c) \/ ReturnableMem(s0, tx.c))
+      \* ReturnCRDepositCoin: the signer has deposit that is no longer locked
+      \* (the whole available amount is returned; a penalty counts when it takes a whole deposit)
+      [] tx.k = "ReturnDeposit" -> /\ s0.dep[tx.c].known /\ s0.dep[tx.c].locked >= 0
+                                   /\ s0.dep[tx.c].total > s0.dep[tx.c].locked + s0.dep[tx.c].pen
       [] tx.k = "Fund"         -> TRUE
       [] OTHER -> FALSE
 
 \* blockchain.CheckDuplicateTx: one register / update / unregister per CID
-\* per block (and, with the repair, one withdrawal per proposal)
+\* per block and (DupRule) one withdrawal and one tracking per proposal
 CRKinds == {"RegisterCR", "UpdateCR", "UnregisterCR"}
 DupFree(txs) ==
     \A i, j \in 1..Len(txs) : i < j =>
         /\ ~(txs[i].k \in CRKinds /\ txs[j].k \in CRKinds /\ txs[i].c = txs[j].c)
-        /\ (DupWithdrawRule => ~(txs[i].k = "Withdraw" /\ txs[j].k = "Withdraw" /\ txs[i].p = txs[j].p))
+        /\ (DupRule => ~(txs[i].k \in {"Withdraw", "Tracking"} /\ txs[j].k = txs[i].k /\ txs[i].p = txs[j].p))
 
-\* what the property demands of a withdrawal: it is judged against the state
-\* its predecessors in the block leave behind (no second payment of a stage)
-RuleAllowsWithdraw(s0, txs, i) ==
-    /\ WithdrawOK(s0, txs[i].p, txs[i].o, txs[i].n)
-    /\ \A j \in 1..(i - 1) : ~(txs[j].k = "Withdraw" /\ txs[j].p = txs[i].p)
+\* what the property demands: a withdrawal / a tracking is judged against the
+\* state its predecessors in the block leave behind, so a second one of the
+\* same proposal must not be admitted on the strength of the pre-block state
+\* (it would pay a stage twice / give the same budget back twice)
+RuleAllows(txs, i) ==
+    \A j \in 1..(i - 1) : ~(txs[i].k \in {"Withdraw", "Tracking"} /\ txs[j].k = txs[i].k /\ txs[j].p = txs[i].p)
 
 RECURSIVE BudgetBefore(_, _)
 BudgetBefore(txs, i) ==
@@ -169,7 +168,7 @@ ApplyTx(s0, st, h, tx) ==
            [st EXCEPT !.cand[tx.c] = [st |-> "Pending", votes |-> 0, regH |-> h, cancelH |-> 0,
                                       nick |-> st.nv[tx.c] + 1],
                       !.nv[tx.c] = @ + 1,
-                      !.dep[tx.c] = [known |-> TRUE, locked |-> @.locked + 1]]
+                      !.dep[tx.c] = [@ EXCEPT !.known = TRUE, !.locked = @ + 1, !.total = @ + 1]]
       [] tx.k = "UpdateCR" ->
            [st EXCEPT !.cand[tx.c].nick = st.nv[tx.c] + 1, !.nv[tx.c] = @ + 1]
       [] tx.k = "UnregisterCR" ->
@@ -204,7 +203,8 @@ ApplyTx(s0, st, h, tx) ==
            ELSE [st EXCEPT !.mem[tx.c].key = TRUE,
                            !.mem[tx.c].st = IF @ = "Inactive" THEN "Elected" ELSE @]
       [] tx.k = "ReturnDeposit" ->
-           [st EXCEPT !.cand[tx.c].st =
+           [st EXCEPT !.dep[tx.c].total = @ - (s0.dep[tx.c].total - s0.dep[tx.c].locked - s0.dep[tx.c].pen),
+                      !.cand[tx.c].st =
                           IF s0.cand[tx.c].st = "Canceled" /\ h - s0.cand[tx.c].cancelH > Lockup
                           THEN "Returned" ELSE @,
                       !.hcand = [i \in Sessions |-> [c \in CRs |->
@@ -256,12 +256,22 @@ CommitteePhase(s1, sp, h) ==
         already  == {m \in CRs : s1.mem[m].st = "Impeached"}
         ending   == s1.inElect /\ Cardinality(already) + Cardinality(newImp) > MemberCount - AgreeCount
         termd    == IF ending THEN onDuty \ newImp ELSE {}
+        \* getMemberPenalty: the penalty takes the whole deposit when the member
+        \* served no block of the term or reviewed none of the term's proposals
+        \* (smaller penalties are not modelled)
+        termProps == {p \in Props : s1.prop[p].st # "None" /\ s1.prop[p].sess = s1.session}
+        reviewed(m) == termProps = {} \/ \E p \in termProps : s1.prop[p].crv[m] # "none"
+        served(m, impeached) == (IF impeached THEN h - s1.lch ELSE DutyPeriod) - s1.mem[m].pbc
+                                - (IF s1.mem[m].st = "Inactive" THEN 1 ELSE 0)
+        fullPen(m, impeached) == IF served(m, impeached) = 0 \/ ~reviewed(m) THEN 1 ELSE 0
         \* (2) closures of tryStartVotingPeriod
         c2 == [sp EXCEPT
                  !.mem = [m \in CRs |-> IF m \in newImp THEN [@[m] EXCEPT !.st = "Impeached"]
                                         ELSE IF m \in termd THEN [@[m] EXCEPT !.st = "Terminated"]
                                         ELSE @[m]],
-                 !.dep = [m \in CRs |-> IF m \in newImp \cup termd THEN [@[m] EXCEPT !.locked = @ - 1] ELSE @[m]],
+                 !.dep = [m \in CRs |-> IF m \in newImp \cup termd
+                                        THEN [@[m] EXCEPT !.locked = @ - 1, !.pen = s1.dep[m].pen + fullPen(m, m \in newImp)]
+                                        ELSE @[m]],
                  !.uImp = IF ending THEN [v \in Voters |-> ZeroPat]
                           ELSE [v \in Voters |-> [m \in CRs |-> IF m \in newImp THEN 0 ELSE @[v][m]]],
                  !.inElect = IF ending THEN FALSE ELSE @,
@@ -296,17 +306,18 @@ CommitteePhase(s1, sp, h) ==
                THEN [hm0 EXCEPT ![s1.session] = [c \in CRs |-> IF s1.mem[c].st # "None" THEN s1.mem[c].st ELSE @[c]]]
                ELSE hm0
         depOut == [m \in CRs |-> IF s1.inElect /\ m \in onDuty
-                                 THEN [c4a.dep[m] EXCEPT !.locked = @ - 1] ELSE c4a.dep[m]]
+                                 THEN [c4a.dep[m] EXCEPT !.locked = @ - 1, !.pen = s1.dep[m].pen + fullPen(m, FALSE)]
+                                 ELSE c4a.dep[m]]
         c4b == IF ~change THEN c4a
                ELSE IF ~hasNext
                THEN [c4a EXCEPT !.hmem = hm1, !.hcand = hc0, !.dep = depOut,
                                 !.uImp = [v \in Voters |-> ZeroPat],
-                                !.mem = [m \in CRs |-> [st |-> "None", imp |-> 0, key |-> FALSE]],
+                                !.mem = [m \in CRs |-> [st |-> "None", imp |-> 0, key |-> FALSE, pbc |-> 0]],
                                 !.inElect = FALSE]
                ELSE [c4a EXCEPT !.hmem = hm1, !.hcand = hc0, !.dep = depOut,
                                 !.mem = [m \in CRs |-> IF s1.next[m].in
-                                                       THEN [st |-> "Elected", imp |-> 0, key |-> s1.next[m].key]
-                                                       ELSE [st |-> "None", imp |-> 0, key |-> FALSE]],
+                                                       THEN [st |-> "Elected", imp |-> 0, key |-> s1.next[m].key, pbc |-> 0]
+                                                       ELSE [st |-> "None", imp |-> 0, key |-> FALSE, pbc |-> 0]],
                                 !.next = [m \in CRs |-> [in |-> FALSE, key |-> FALSE]],
                                 !.uImp = [v \in Voters |-> ZeroPat],
                                 !.session = @ + 1, !.inElect = TRUE, !.lch = h,
@@ -314,10 +325,13 @@ CommitteePhase(s1, sp, h) ==
         changed == change /\ hasNext
         \* (6) members that have not claimed a node
         inactCheck == ~(h < c4b.lvsh + VotingPeriod + ClaimPeriod)
+        \* updateInactiveCountPenalty: a block spent inactive counts against the member
+        c5 == [c4b EXCEPT !.mem = [m \in CRs |-> IF @[m].st \in {"Inactive", "Illegal"}
+                                                 THEN [@[m] EXCEPT !.pbc = @ + 1] ELSE @[m]]]
         c6 == IF inactCheck
-              THEN [c4b EXCEPT !.mem = [m \in CRs |-> IF @[m].st = "Elected" /\ ~@[m].key
-                                                      THEN [@[m] EXCEPT !.st = "Inactive"] ELSE @[m]]]
-              ELSE c4b
+              THEN [c5 EXCEPT !.mem = [m \in CRs |-> IF @[m].st = "Elected" /\ ~@[m].key
+                                                     THEN [@[m] EXCEPT !.st = "Inactive"] ELSE @[m]]]
+              ELSE c5
         \* (7) funds of the new term
         ap == (c6.fbal * 10) \div 100
     IN IF changed THEN [c6 EXCEPT !.usedSnap = c6.used, !.approp = ap, !.stage = c6.cbal + ap]
@@ -410,10 +424,11 @@ TxAlphabet ==
 
 \* what a transaction is about (pairs in one block are explored when they
 \* touch the same thing: that is where the per-block rule matters)
-Subject(tx) == IF tx.p # NoProp THEN tx.p ELSE IF tx.c # NoC THEN tx.c ELSE tx.k
-Related(a, b) == \/ Subject(a) = Subject(b)
+Related(a, b) == \/ a.p # NoProp /\ a.p = b.p
+                 \/ a.p = NoProp /\ b.p = NoProp /\ a.c # NoC /\ a.c = b.c
                  \/ a.k \in {"Proposal", "Close"} /\ b.k \in {"Proposal", "Close"}
                  \/ a.v # NoC /\ a.v = b.v
+                 \/ a.k \in {"RealWithdraw", "Approp"} \/ b.k \in {"RealWithdraw", "Approp"}
 
 \* one Voting transaction per stake address per block (vote-right accounting
 \* of several votes in one block is not modelled here)
@@ -441,7 +456,7 @@ BlockChoices(st) ==
       {<<>>} \cup {<<a>> : a \in e}
       \cup (IF MaxTx >= 2
             THEN {q \in {<<a, b>> : a \in e, b \in e} :
-                     /\ q[1] # q[2] \/ q[1].k = "Withdraw"
+                     /\ q[1] # q[2] \/ q[1].k \in {"Withdraw", "Tracking"}
                      /\ Related(q[1], q[2]) /\ OneVotePerVoter(q) /\ OneRegistration(q)
                      /\ BlockAdmitted(st, st.h + 1, q)}
             ELSE {})
@@ -481,12 +496,13 @@ Block(txs) ==
     /\ nsteps' = nsteps + 1
     /\ UNCHANGED nrolls
     /\ LogStep("Block", [h |-> s.h + 1, txs |-> txs,
-                         ok |-> [i \in 1..Len(txs) |-> txs[i].k # "Withdraw" \/ RuleAllowsWithdraw(s, txs, i)]])
+                         ok |-> [i \in 1..Len(txs) |-> RuleAllows(txs, i)]])
 
 \* Committee.RollbackTo(t): the state after block t
 Rollback(i) ==
     /\ nsteps < MaxSteps /\ nrolls < MaxRollbacks
     /\ i \in 1..(Len(hist) - 1)
+    /\ hist[i][1] >= VotingStart      \* the committee does not exist below (RollbackTo(0) does not terminate)
     /\ s' = hist[i][2]
     /\ hist' = SubSeq(hist, 1, i)
     /\ nsteps' = nsteps + 1 /\ nrolls' = nrolls + 1
@@ -503,9 +519,8 @@ Spec == Init /\ [][Next]_vars
 TypeOK ==
     /\ \A c \in CRs : /\ s.cand[c].st \in {"None", "Pending", "Active", "Canceled", "Returned"}
                       /\ s.mem[c].st \in {"None", "Elected", "Impeached", "Terminated", "Returned", "Inactive", "Illegal"}
-                      /\ s.dep[c].locked >= 0
     /\ \A p \in Props : s.prop[p].st \in {"None", "Registered", "CRAgreed", "VoterAgreed"} \cup FinalStatus
-    /\ s.used >= 0 /\ s.fbal >= 0 /\ s.session \in Sessions
+    /\ s.fbal >= 0 /\ s.session \in Sessions
 
 \* C22, model side: the newest history entry is the current state and a
 \* rollback lands on a state that was the state after that height
@@ -516,6 +531,10 @@ C29PaidWithinApproved == PaidWithinApproved(s)
 C29StagePaidOnce == StagePaidOnce(s)
 C29WithdrawnWasWithdrawable == WithdrawnWasWithdrawable(s)
 C29CommittedWithinAvailable == CommittedWithinAvailable(s)
+
+\* (deposit accounting is the subject of another property; the locked amount
+\* of the model follows the code, see DepositSane)
+DepositSane == \A c \in CRs : s.dep[c].locked >= 0
 
 \* candidate votes never go negative, members are exactly MemberCount or none
 VotesSane == \A c \in CRs : s.cand[c].votes >= 0 /\ s.mem[c].imp >= 0
